@@ -1539,7 +1539,9 @@ udp_resolv_cb(void *arg)
 	}
 
 	udp_pipe_schedule(p);
-	udp_ep_start(ep);
+	if (!ep->started) {
+		udp_ep_start(ep);
+	}
 
 	// Send out the connection request.  We don't complete
 	// the user aio until we confirm a connection, so that
@@ -1564,12 +1566,14 @@ udp_ep_connect(void *arg, nni_aio *aio)
 		nni_aio_finish_error(aio, NNG_ECLOSED);
 		return;
 	}
-	if (ep->started) {
+	// One connection at a time.  Once it is gone (refused, expired or
+	// disconnected by the peer) the dialer has to be able to connect
+	// again, using the socket it already has.
+	if ((ep->peer_count != 0) || (!nni_list_empty(&ep->connaios))) {
 		nni_mtx_unlock(&ep->mtx);
 		nni_aio_finish_error(aio, NNG_EBUSY);
 		return;
 	}
-	NNI_ASSERT(nni_list_empty(&ep->connaios));
 	ep->dialer = true;
 
 	nni_list_append(&ep->connaios, aio);
